@@ -204,6 +204,7 @@ DEFAULT_SPEC = {
     'cell_id_style': 'mixed', 'cloud_safe': False,
     'with_csv': True, 'with_hdf5': True, 'noise': 1.0,
     'collect': 'file',   # 'file' or 'manager' (direct call only)
+    'max_gb': 1.0, 'n_extra_genes': None, 'extra_first': False,
 }
 
 
@@ -249,6 +250,8 @@ def build_world(spec, work):
     ref_genes = gen.gene_names(rng, n_genes, prefix='g')
     w.ref_genes = ref_genes
     n_extra = int(rng.integers(0, 5))
+    if s.get('n_extra_genes') is not None:
+        n_extra = int(s['n_extra_genes'])
     extra_genes = [f'xq{i}' for i in range(n_extra)]
     # query keeps most reference genes
     keep = rng.random(n_genes) < 0.8
@@ -258,6 +261,10 @@ def build_world(spec, work):
     query_genes = q_ref_genes + extra_genes
     perm = rng.permutation(len(query_genes))
     query_genes = [query_genes[i] for i in perm]
+    if s.get('extra_first'):
+        # all the foreign genes first: markers sit at high column numbers
+        query_genes = [g for g in query_genes if g.startswith('xq')] + \
+            [g for g in query_genes if not g.startswith('xq')]
     w.query_genes = query_genes
 
     # profiles and statistics file
@@ -358,7 +365,7 @@ def make_config(w, s):
         'tmp_dir': str(work / 'scratch'),
         'drop_level': w.drop_level,
         'flatten': bool(s['flatten']),
-        'max_gb': 1.0,
+        'max_gb': float(s.get('max_gb', 1.0)),
         'cloud_safe': bool(s['cloud_safe']),
         'map_to_ensembl': False,
         'precomputed_stats': {'path': str(w.stats_path)},
